@@ -12,7 +12,7 @@ func init() {
 	register(&PropDef{
 		ID:    "C51",
 		Pkgs:  []string{xres, "grpc"},
-		Claim: "Decides the structural part: every successful route selection passes through the reference increments (route cluster and cluster/plugin info) and installs an OnCommitted callback built with sync.OnceFunc whose body performs the matching decrements on all its paths; the stream invokes the commit callback only on the first commit and the same once-wrapped callback is registered for stream termination; entries leave the active cluster/plugin maps only in the prune function and only at reference count zero; stopping a selector releases each of its references once.",
+		Claim: "Decides the structural part: every successful route selection passes through the reference increments (route cluster and cluster/plugin info) and installs an OnCommitted callback built with sync.OnceFunc whose body performs the matching decrements on all its paths; the stream invokes the commit callback only on the first commit and the same once-wrapped callback is registered for stream termination; entries leave the active cluster/plugin maps only in the prune function and only at reference count zero; stopping a selector releases each of its references once. Selector construction never continues past a failing interceptor, a partially built selector is stopped only when construction failed, and every routed cluster is recorded from the resolver's active-cluster table.",
 		NotDecided:  []string{"that the count never reaches zero while an uncommitted RPC exists, over all interleavings of config updates and RPCs (history property; the pairing is decided, not the history)"},
 		Assumptions: []string{"sync.OnceFunc runs its function at most once", "atomic.Int32 semantics"},
 		Technique:   "static analysis: must-pass-through path search for the increments and the callback installation, value-origin (sync.OnceFunc), closure-body pairing, who-may-write with dominating zero-check",
